@@ -142,6 +142,23 @@ func (r *renderer) unaryOperand(x Expr) {
 			r.chain(x)
 			return
 		}
+		// indexes, slices and [*] bind tighter than the unary operator: !a[*]
+		// and !(a[*]) are the same expression (dot steps, flatten and filters
+		// are not pinned, see the reference parser)
+		if x.Head.Kind != HImplicit && len(x.Steps) > 0 && r.c.Choose("unaryparen", 2) == 1 {
+			brackets := true
+			for _, st := range x.Steps {
+				switch st.Kind {
+				case SIndex, SSlice, SListStar:
+				default:
+					brackets = false
+				}
+			}
+			if brackets {
+				r.chain(x)
+				return
+			}
+		}
 	case *Unary:
 		// "- -a" would lex fine but "--a" too; keep explicit
 		if r.spacing != 2 && (x.Op == "-" || x.Op == "+") {
